@@ -16,6 +16,7 @@ Decided
   A2  the subset export passes samples and channel rows of the same spikes, channels from each spike's template; get_waveforms reads the
       store when present and otherwise the raw window at spike_samples[spike_ids]; extract_waveforms keeps spike order
   +   a recognised wrong form of S2: spike i of the chunk extracted on row i of the channel table of ALL spikes (no chunk-local table)
+  +   A2 prerequisite: the readers serve the given files in the given order with the given layout (C01.D1 / D2)
 Not decided: mtscomp's decoder (the chaining of the compressed reader's batch intervals is C16.P2), the sortedness precondition, values.
 """
 import ast
@@ -815,7 +816,27 @@ def a2_routes(ctx):
                 'extract_waveforms does not fill row i with the window of spike i (`%s = %s`)' % (unparse(st[0].targets[0]), unparse(c[0])[:70]), 'extraction loop not in a recognised form')
 
 
+def a2_recording(ctx):
+    """Every route cuts its windows out of `traces[...]`: that this is the recording - the given files concatenated in the given order, each mapped with the given
+    layout - is C01's obligation on the readers (D1 storage vs bounds, D2 file order). Prerequisite here: a reader that serves other rows makes all three routes agree
+    with each other and disagree with the raw data."""
+    from vlib import report
+    from obligations import C01
+    sub = report.Ctx('C01', ctx.repo, ctx.tier, ctx.seed)
+    C01.t2_d1_readers(sub)
+    rel = [o for o in sub.obs if o.rule in ('C01.D1', 'C01.D2')]
+    bad = [o for o in rel if o.status == 'violated']
+    for o in bad[:2]:
+        ctx.obs.append(report.Ob('C03.A2', o.where, 'violated', 'the recording the windows are read from is not the given files in the given order (%s): %s' % (o.rule, o.detail), o.construct, o.line))
+    if not bad and any(o.status == 'holds' for o in rel):
+        ctx.holds('C03.A2', TR + ':BaseEphysReader', 'the readers serve the given files, in the given order, with the given layout (%d obligations of C01.D1 / D2 hold)' % len([o for o in rel if o.status == 'holds']),
+                  'recording')
+    elif not bad:
+        ctx.undecided('C03.A2', TR + ':BaseEphysReader', 'the storage obligations of the readers (C01.D1 / D2) were not decided')
+
+
 def run(ctx):
+    ctx.part('C03.A2', a2_recording)
     ctx.part('C03.S1', s1_extract)
     ctx.part('C03.S2', s2_iter)
     ctx.part('C03.Y1', y1_writer)
